@@ -2,6 +2,7 @@
 
 CONFIGS = {
     "native": {"args": ["--release"], "bin": "release/svh"},
+    "miri": {"miri": True, "args": [], "env": {"MIRIFLAGS": "-Zmiri-disable-isolation"}},
     "tsan": {"toolchain": ["+nightly"], "args": ["--release", "-Zbuild-std", "--target", "x86_64-unknown-linux-gnu"],
              "env": {"RUSTFLAGS": "-Zsanitizer=thread", "RUSTUP_TOOLCHAIN": "nightly"},
              "bin": "x86_64-unknown-linux-gnu/release/svh"},
@@ -10,7 +11,7 @@ CONFIGS = {
     "persist": {"args": ["--release", "--features", "persist"], "bin": "release/svh"},
 }
 
-SETUP_CONFIGS = ["native", "sched"]
+SETUP_CONFIGS = ["native", "sched", "persist", "miri"]
 
 ASSUME_SINGLE = [
     "programs are interpreter-shaped (generic tracked fns interpreting generated program data); other user-code shapes are not covered",
@@ -200,6 +201,29 @@ PLANS["C22"] = {
     "min_counts": {"quick": {"faults_fired": 50000, "recovered_next_revision": 50000, "site:Eq": 500, "site:KeyHash": 500,
                              "site:EvDiscard": 100, "site:CycleFn": 50, "waiter_released_with_propagated_panic": 20}},
     "assumptions": ASSUME_SINGLE + ["user-code steps are those of the harness's own functions and value types; a panic inside Drop is not injected"],
+}
+PLANS["C25"] = {
+    "rule": ("case = a block of 512 consecutive sequences of the exhaustive space of edge sequences of length <= 2 over 420 boundary "
+             "classes (ingredient in {0,1,0xFFE,0xFFF,0x1000,0x1001,max}, index in {0,1,2^20-1,2^20,max}, generation in "
+             "{0,1,0xFFFFE,0xFFFFF,0x100000,u32::MAX}, input/output), each built as derived / untracked x with / without co-allocated "
+             "extra data, or 256 sampled sequences of length 3..40 with packable prefixes; each stored origin must decode to the same edges "
+             "(forward and reverse), its input and output views must partition them, attaching extra data must not change them, clearing "
+             "edges must keep the extra data; persist build: serde_json round trip of persisted origins; Miri: all sequences of length <= 1 "
+             "and a sample of longer ones; one evaluation = one origin built and decoded; distinct = distinct sequence"),
+    "runs": [
+        {"sub": "origin-exh", "cfg": "native", "quick": {"cases": 346, "secs": 300}, "thorough": {"cases": 346, "secs": 900}},
+        {"sub": "origin-rand", "cfg": "native", "quick": {"cases": 400, "secs": 100}, "thorough": {"cases": 40000, "secs": 900}},
+        {"sub": "origin-serde", "cfg": "persist", "quick": {"cases": 346, "secs": 300}, "thorough": {"cases": 346, "secs": 900}},
+        # `cargo miri run` serialises on the target-dir lock, so Miri work is not sharded: quick interprets 6 of the 16 blocks
+        # of the length<=1 space (which 6 depends on VERIF_SEED), thorough all of them ten times with different samples
+        {"sub": "origin-miri", "cfg": "miri", "max_shards": 1, "quick": {"cases": 6, "secs": 400, "hard_timeout": 1500},
+         "thorough": {"cases": 160, "secs": 3000, "hard_timeout": 6000}},
+    ],
+    "min_counts": {"quick": {"exhaustive_sequences": 176821, "packed_layouts": 20000, "wide_layouts": 500000,
+                             "origins_serialized": 500000, "miri_origins": 500}},
+    "assumptions": ["the boundary classes are those of the compact encoding's documented limits (12-bit ingredient, 20-bit generation)",
+                    "the feature-guarded hook calls the same constructors and accessors as salsa's own code paths"],
+    "extra_coverage": {"exhaustive": True},
 }
 PLANS["C14"]["runs"].append(osrun(480, 12000))
 PLANS["C14"]["min_counts"]["quick"]["propagated_cycle_panics"] = 5
